@@ -100,18 +100,19 @@ class Exec:
             gp.set(sb, "os", ModuleProxy(os, {"replace": gated("replace", os.replace), "write": gated("write", os.write)}))
 
             shared = ds.load_table(inst.table_path) if case["topology"] == "shared" else None
+            rw0 = ds.load_table(inst.table_path) if case["topology"] == "reader_shares_w0" else None
             handles = []
-            fault_actor = {"name": None}
+            fault_actor = {"names": set()}
 
             def fault_hook(op: Any) -> None:
                 if op.phase == "before" and op.name == "local.write_file" and op.path == HINT:
                     me = sched.me()
-                    if me is not None and me.name == fault_actor["name"]:
+                    if me is not None and me.name in fault_actor["names"]:
                         raise OSError("injected: pointer write failed")
 
             self.ip.before.append(fault_hook)
             for i, api in enumerate(case["readers"]):
-                t = shared if shared is not None else ds.load_table(inst.table_path)
+                t = shared if shared is not None else (rw0 if rw0 is not None else ds.load_table(inst.table_path))
                 handles.append(t)
                 name = f"R{i}"
 
@@ -127,12 +128,16 @@ class Exec:
 
                 sched.spawn(name, rfn)
             for i, kind in enumerate(case["writers"]):
-                t = shared if shared is not None else ds.load_table(inst.table_path)
+                t = shared if shared is not None else (rw0 if (rw0 is not None and i == 0) else ds.load_table(inst.table_path))
                 handles.append(t)
                 name = f"W{i}"
                 if kind == "failed_commit":
-                    fault_actor["name"] = name
-                sched.spawn(name, clog.wrap(name, kind, self._wfn(kind, i, t, seed_files)))
+                    fault_actor["names"].add(name)
+                base = 1000 * (i + 1)
+                info = {"append": {"ids": [base + 1, base + 2]}, "multi": {"ids": [base + 1, base + 2, base + 3]},
+                        "delete": {"victim": seed_files[i % len(seed_files)]},
+                        "delete_append": {"victim": seed_files[i % len(seed_files)], "ids": [base + 7]}}.get(kind, {})
+                sched.spawn(name, clog.wrap(name, kind, self._wfn(kind, i, t, seed_files), **info))
             adopt(sched, *{id(h): h for h in handles}.values())
             self.ip.after.append(flips.l1_after)
             if inst.store is not None:
@@ -146,6 +151,8 @@ class Exec:
                 self.ip.before.remove(fault_hook)
             monitor(sched, None)
             viol = list(self._judge(clog.events, versions, sched.nstep)) if outcome == "ok" else []
+            if outcome == "ok":
+                viol += list(self._atomic(clog.events, versions, flips.flips, blobs))
             viol += [("published-version-unreadable", m) for m in gt_err]
             return {"outcome": outcome, "viol": viol, "trace_key": sched.trace_key(), "steps": sched.nstep,
                     "events": [{k: (v if k != "rows" else (v if isinstance(v, int) else len(v))) for k, v in e.items()}
@@ -189,6 +196,43 @@ class Exec:
         if kind == "failed_commit":
             return lambda: t.append_records(tables.rows([base + 8, base + 9]))
         raise ValueError(kind)
+
+    @staticmethod
+    def _atomic(events: List[Dict[str, Any]], versions: List[Tuple[int, List[str]]], flips: Any, blobs: Any):
+        """a multi-operation transaction becomes visible all at once: every published version must
+        equal the previous one plus the COMPLETE effect of the transaction that published it, and a
+        transaction publishes at most once."""
+        per_actor: Dict[str, int] = {}
+        file_rows: Dict[str, List[str]] = {}
+        for k, (step, who, _target) in enumerate(flips):
+            ev = next((e for e in events if e["actor"] == who), None)
+            if ev is None:
+                continue
+            per_actor[who] = per_actor.get(who, 0) + 1
+            prev_rows, new_rows = versions[k][1], versions[k + 1][1]
+            exp = list(prev_rows)
+            if ev["op"] in ("rollback", "failed_commit"):
+                yield (f"uncommitted-transaction-published:{ev['op']}", f"{who} ({ev['op']}) moved the pointer at step {step}")
+                continue
+            if "victim" in ev:
+                v = ev["victim"]
+                if v not in file_rows:
+                    try:
+                        file_rows[v] = reader.canon_rows(reader.read_rows(blobs, v))
+                    except Exception:
+                        file_rows[v] = []
+                for r in file_rows[v]:
+                    if r in exp:
+                        exp.remove(r)
+            exp += reader.canon_rows(tables.rows(ev.get("ids", [])))
+            if sorted(exp) != new_rows:
+                yield (f"partial-transaction-published:{ev['op']}",
+                       f"version published by {who} ({ev['op']}) at step {step} is not the previous version plus the whole "
+                       f"transaction: {len(new_rows)} rows, expected {len(exp)}")
+        for who, n in per_actor.items():
+            if n > 1:
+                ev = next(e for e in events if e["actor"] == who)
+                yield (f"transaction-published-in-steps:{ev['op']}", f"{who} ({ev['op']}) moved the pointer {n} times")
 
     @staticmethod
     def _judge(events: List[Dict[str, Any]], versions: List[Tuple[int, List[str]]], end: int):
@@ -262,13 +306,19 @@ class C02(Check):
                 for sh in range(8):
                     yield {"mode": "dfs", "readers": [api], "writers": [w], "topology": topo, "backend": be, "k": 2,
                            "shard": sh, "nshards": 8, "nreads": 1 if be == "s3" else 2}
+        # a reader on the handle of a writer whose commit fails, while another handle commits
+        for api in (["scan", "row_count", "scan_batches"] if tier == "quick" else READ_APIS):
+            for w0 in ("failed_commit", "rollback"):
+                for sh in range(4):
+                    yield {"mode": "dfs", "readers": [api], "writers": [w0, "append"], "topology": "reader_shares_w0",
+                           "backend": "local", "k": 1, "shard": sh, "nshards": 4, "nreads": 2}
         nrand = 40 if tier == "quick" else 600
         for i in range(nrand):
             rng = rng_for(seed, "c02r", i)
             yield {"mode": rng.choice(["pct", "random"]),
                    "readers": [rng.choice(READ_APIS) for _ in range(rng.choice([1, 2]))],
                    "writers": [rng.choice(WRITERS[:5] + ["delete_append"]) for _ in range(rng.choice([1, 2, 3]))],
-                   "topology": rng.choice(["separate", "shared"]), "backend": rng.choice(["local", "local", "s3"]),
+                   "topology": rng.choice(["separate", "shared", "reader_shares_w0"]), "backend": rng.choice(["local", "local", "s3"]),
                    "seed": seed * 100000 + i, "runs": 5 if tier == "quick" else 10}
 
     def run_case(self, case: Any, res: CaseResult, tier: str) -> None:
